@@ -170,7 +170,9 @@ class _ReturnRewriter(ast.NodeTransformer):
             return node
         if self.mode == 'assign':
             if len(self.target) == 1 and ast.dump(self.target[0]).replace('Store()', 'Load()') == ast.dump(val):
-                return ast.copy_location(ast.Pass(), node)   # ``a, b = a, b``: the helper's locals already are the caller's
+                delivered = ast.copy_location(ast.Pass(), node)   # ``a, b = a, b``: the helper's locals already are the caller's
+                delivered._delivers_value = True                  # (the value IS delivered on this path: nothing falls off the helper's end here)
+                return delivered
             new = ast.Assign(targets=[copy.deepcopy(t) for t in self.target], value=val, lineno=node.lineno, col_offset=node.col_offset)
             return ast.copy_location(new, node)
         # expression statement: keep the evaluation of the returned expression if it can have an effect
@@ -229,7 +231,7 @@ class Inliner:
         if any(d.split('.')[-1] not in ('staticmethod', 'classmethod', 'contextmanager') for d in decos):
             return None
         a = g.node.args
-        if a.vararg or a.kwarg or a.kwonlyargs or a.posonlyargs:
+        if a.vararg or a.kwarg:
             return None
         if g.cls is not None:
             # no override anywhere in the hierarchy
@@ -300,8 +302,11 @@ class Inliner:
         return g
 
     def _bind(self, g: FuncInfo, call: ast.Call, caller_names: Set[str]) -> Optional[Tuple[List[ast.stmt], Dict[str, ast.expr], Dict[str, str]]]:
-        params = [x.arg for x in g.node.args.args]
-        defaults = g.node.args.defaults
+        ga = g.node.args
+        posonly = [x.arg for x in ga.posonlyargs]
+        params = posonly + [x.arg for x in ga.args]          # ``/`` and ``*`` markers only restrict HOW a caller may pass an argument
+        kwonly = [x.arg for x in ga.kwonlyargs]
+        defaults = ga.defaults
         first_default = len(params) - len(defaults)
         is_static = any(d.split('.')[-1] == 'staticmethod' for d in g.decorator_names())
         skip_self = g.cls is not None and not is_static
@@ -312,7 +317,7 @@ class Inliner:
         for p, a in zip(plist, call.args):
             bound[p] = a
         for k in call.keywords:
-            if k.arg not in plist or k.arg in bound:
+            if k.arg not in plist + kwonly or k.arg in bound or k.arg in posonly:
                 return None
             bound[k.arg] = k.value
         for i, p in enumerate(params):
@@ -323,6 +328,11 @@ class Inliner:
                     bound[p] = defaults[i - first_default]
                 else:
                     return None
+        for p, d in zip(kwonly, ga.kw_defaults):
+            if p not in bound:
+                if d is None:
+                    return None
+                bound[p] = d
         body = _docstring_free(g.node.body)
         shared = {n for st in g.node.body if isinstance(st, ast.Nonlocal) for n in st.names}
         assigned = _assigned_names(body) - shared
@@ -679,7 +689,7 @@ class Inliner:
         tmp = FuncInfo(node, func.module, func.cls, func.parent)
         tmp.origin_raw = func  # type: ignore[attr-defined]
         self.prog._index_nested(tmp, func.module)
-        names = _assigned_names(node.body) | {a.arg for a in node.args.args + node.args.kwonlyargs}
+        names = _assigned_names(node.body) | {a.arg for a in node.args.posonlyargs + node.args.args + node.args.kwonlyargs}
         node.body = self._process_block(tmp, node.body, names, (id(func.node), id(node)))
         # the scratch function's nested definitions were indexed for call resolution only: nothing may find them afterwards
         # (their parent is in no index, so a rule asking for their callers would find none)
@@ -789,6 +799,8 @@ def _always_exits_or_assigns(stmts: List[ast.stmt], target) -> bool:
         return False
     last = stmts[-1]
     if isinstance(last, ast.Raise):
+        return True
+    if isinstance(last, ast.Pass) and getattr(last, '_delivers_value', False):
         return True
     if isinstance(last, ast.Assign) and target is not None and [unparse(t) for t in last.targets] == [unparse(t) for t in target]:
         return True
